@@ -596,4 +596,70 @@ theorem createKeep_tree (s : State) (idx : Nat) (p : Key) : CreateKeep s (kvDele
     · cases this
   · rw [hx] at hy; cases hy; rfl
 
+/-! ### KV verbs inside a transaction are the direct commands -/
+
+/-- the direct command that a transaction's KV write verb stands for -/
+def cmdOfVerb : KvVerb → KV → Option Cmd
+  | .set, e => some (.kvSet e)
+  | .delete, e => some (.kvDelete e.key)
+  | .deleteCas, e => some (.kvDeleteCas e.key e.modify)
+  | .deleteTree, e => some (.kvDeleteTree e.key)
+  | .cas, e => some (.kvCas e)
+  | .lock, e => some (.kvLock e)
+  | .unlock, e => some (.kvUnlock e)
+  | _, _ => none
+
+/-- A KV write verb inside a transaction succeeds exactly when the direct command reports `ok` / `true`,
+    and then leaves the working copy in exactly the state the direct command produces; when it fails
+    the direct command changes nothing either. -/
+theorem txnKV_same_as_direct (s : State) (idx : Nat) (v : KvVerb) (e : KV) (c : Cmd) (h : cmdOfVerb v e = some c) :
+    (∀ s' rs, txnKV s idx v e = .ok (s', rs) →
+        s' = (apply s idx c).1 ∧ ((apply s idx c).2 = .ok ∨ (apply s idx c).2 = .bool true)) ∧
+    (∀ er, txnKV s idx v e = .error er →
+        (apply s idx c).1 = s ∧ ((apply s idx c).2 = .err er ∨ (apply s idx c).2 = .bool false)) := by
+  cases v <;> simp only [cmdOfVerb] at h <;> try (cases h)
+  · -- set
+    simp only [txnKV, apply, okRes]
+    cases hq : kvSetTxn s idx e false with
+    | error x => simp [liftS, Except.map]
+    | ok p => obtain ⟨s1, w⟩ := p; simp [liftS, Except.map]
+  · -- delete
+    simp only [txnKV, apply, okRes]
+    cases hq : kvDeleteTxn s idx e.key with
+    | error x => simp [liftS]
+    | ok s1 => simp [liftS]
+  · -- delete-cas
+    simp only [txnKV, apply, okRes]
+    cases hq : kvDeleteCasTxn s idx e.modify e.key with
+    | error x => simp [liftB]
+    | ok p => obtain ⟨s1, b⟩ := p; cases b <;> simp [liftB]
+  · -- delete-tree
+    simp [txnKV, apply, okRes]
+  · -- cas
+    simp only [txnKV, apply, okRes]
+    cases hq : kvSetCasTxn s idx e with
+    | error x => simp [liftB, Except.map]
+    | ok p => obtain ⟨s1, b, w⟩ := p; cases b <;> simp [liftB, Except.map]
+  · -- lock
+    simp only [txnKV, apply, okRes]
+    cases hq : kvLockTxn s idx e with
+    | error x => simp [liftB, Except.map]
+    | ok p => obtain ⟨s1, b, w⟩ := p; cases b <;> simp [liftB, Except.map]
+  · -- unlock
+    simp only [txnKV, apply, okRes]
+    cases hq : kvUnlockTxn s idx e with
+    | error x => simp [liftB, Except.map]
+    | ok p => obtain ⟨s1, b, w⟩ := p; cases b <;> simp [liftB, Except.map]
+
+/-- read / check verbs of a transaction never change the working copy -/
+theorem txnKV_reads_pure (s s' : State) (idx : Nat) (v : KvVerb) (e : KV) (rs : List TxnRes)
+    (h : cmdOfVerb v e = none) (hr : txnKV s idx v e = .ok (s', rs)) : s' = s := by
+  cases v <;> simp only [cmdOfVerb] at h <;> try (cases h)
+  all_goals (
+    simp only [txnKV, okRes] at hr
+    repeat' (split at hr)
+    all_goals (try simp at hr)
+    all_goals (try (obtain ⟨rfl, -⟩ := hr))
+    all_goals rfl)
+
 end CV.Store
